@@ -550,6 +550,12 @@ encodeResponse:
         *error = MATRIXSSL_ERROR;
         return rc;
     }
+    if (ssl->err != SSL_ALERT_NONE)
+    {
+        /* A fatal alert has been encoded: flag this session as error so
+           that it cannot be used anymore (as the TLS <1.3 decoder does). */
+        ssl->flags |= SSL_FLAGS_ERROR;
+    }
     *len = tmp.end - tmp.start;
     *remaining = 0;
     /* Advance pointer to point to after the data we have read. */
